@@ -17,7 +17,7 @@ PROPS = {
         "assumptions": [],
     },
     "C02": {
-        "units": [("align", r"match_node_impl|match_nodes_impl_recursive|may_match_ellipsis_impl|match_single_node_while_skip_trivial"), ("strictness", r"MatchStrictness::match_terminal|Aggregator>::match_terminal|<ComputeEnd as Aggregator>::match_meta_var|match_leaf_meta_var"), "preprocess"],
+        "units": [("align", r"match_node_impl|match_nodes_impl_recursive|may_match_ellipsis_impl|match_single_node_while_skip_trivial"), ("strictness", r"MatchStrictness::match_terminal|Aggregator>::match_terminal|Aggregator>::match_meta_var|match_leaf_meta_var"), "preprocess"],
         "kani": [],
         "decided": ["if the pattern tree mirrors the node -- same kinds, same token text, same shape, with any number of sub-trees replaced by distinct `$VAR` holes that are not bound yet (a hole marked as named replacing a named node) -- then match_node_impl answers MatchedBoth at EVERY strictness level and the environment grows by exactly {hole -> the sub-tree it replaced}; in particular code free of `$` matches itself (unbounded; proved through the real mutually recursive alignment engine against the trait-level Aggregator contract, which unit strictness discharges for Cow<MetaVarEnv> via match_leaf_meta_var and MetaVarEnv::insert's contract)"],
         "not_decided": ["`$$$VAR` replacing a trailing run of siblings (the ellipsis path is only proved sound, C03)",
@@ -25,7 +25,7 @@ PROPS = {
         "assumptions": ["T-node: children lists and token text as reported by tree-sitter", "MetaVarEnv::insert accepts a free name (unit meta_var proves insert against match_variable)"],
     },
     "C03": {
-        "units": [("strictness", r"^(?!<Cow as Aggregator>::match_meta_var)"), ("pattern", r"match_node_impl|match_node_non_recursive|get_match_len"), "align"],
+        "units": ["strictness", ("pattern", r"match_node_impl|match_node_non_recursive|get_match_len"), "align"],
         "kani": [],
         "decided": ["the whole alignment engine (unit align: match_node_impl, match_nodes_impl_recursive, may_match_ellipsis_impl, match_single_node_while_skip_trivial, match_ellipsis, try_get_ellipsis_mode -- mutually recursive, real text): whenever it reports a match there IS an alignment in the sense of the property -- relation justified/aligned: kinds agree (ERROR = wildcard), named tokens agree on text (except signature), `$$$` absorbs a run of consecutive siblings, every candidate left unmatched is skippable under the strictness (trailing ones under should_skip_trailing), every pattern token left unmatched is an unnamed one the strictness lets go; plus termination and no failing unwrap",
                     "match_terminal == the documented strictness table (kinds agree incl. ERROR wildcard; named terminals need equal text except under signature; only unnamed / comment candidates are ever skipped; only unnamed goal terminals are skipped)",
